@@ -2,13 +2,20 @@
 """Fold seed_eval.py output (JSON lines) into seeded/<id>/meta.json ("confirmed" block) and print a markdown table."""
 import json, os, sys
 
-log = sys.argv[1]
+logs = sys.argv[1:]
 rows = []
-for line in open(log):
-    line = line.strip()
-    if not line.startswith("{"):
-        continue
-    r = json.loads(line)
+latest = {}
+for log in logs:                      # later logs override earlier ones (same seed id)
+    for line in open(log):
+        line = line.strip()
+        if not line.startswith("{"):
+            continue
+        r = json.loads(line)
+        if r["id"] in latest and "demo_clean" in latest[r["id"]] and "demo_clean" not in r:
+            r = dict(latest[r["id"]], checks=r["checks"])
+        latest[r["id"]] = r
+for sid in sorted(latest):
+    r = latest[sid]
     d = os.path.join("/verif/seeded", r["id"])
     mp = os.path.join(d, "meta.json")
     meta = json.load(open(mp))
@@ -26,8 +33,13 @@ for line in open(log):
         conf["checks"][p] = {"quick_exit": v["exit"], "signatures": v["signatures"]}
     meta["confirmed"] = conf
     json.dump(meta, open(mp, "w"), indent=1)
+    verdict = ", ".join(caught) or "MISSED"
+    if meta.get("retired"):
+        verdict = "retired (%s)" % (", ".join(caught) or "not reported")
+    elif meta.get("beyond_reach") and not caught:
+        verdict = "MISSED (acknowledged: beyond reach)"
     rows.append((r["id"], meta.get("title", ""), meta.get("needs_to_manifest", "")[:110].replace("\n", " "),
-                 ", ".join(caught) or "MISSED", "; ".join(sorted({s for p in caught for s in r["checks"][p]["signatures"]})[:2])))
+                 verdict, "; ".join(sorted({s for p in caught for s in r["checks"][p]["signatures"]})[:2])))
 print("| seeded change | what it does | needs | caught by (quick) | first signatures |")
 print("|---|---|---|---|---|")
 for r in rows:
